@@ -21,7 +21,10 @@ class VFileHistory:
     def cells(self, tier):
         out = []
         seqs = {"cas": [[5, 300], [0, 5], [255, 256, 1], [510, 3, 255, 2]],
-                "dsk": [[5, 300], [2299, 5], [4603, 10], [0, 5], [2304, 2294, 7]]}
+                "dsk": [[5, 300], [2299, 5], [4603, 10], [0, 5], [2304, 2294, 7],
+                        # an odd number of granules in use, then files whose header + data (+ trailer) exceed one granule by 1..4
+                        # bytes: their two granules are then not physically adjacent (33 -> 34, 35 -> 30, 31 -> 36 ...)
+                        [100, 2296, 50], [100, 100, 100, 2297, 9], [100, 100, 100, 100, 100, 2295, 2298, 7]]}
         for kind in ("cas", "dsk"):
             for lens in seqs[kind] if tier == "quick" else seqs[kind] + [[1, 1, 1, 1], [2295, 2295], [765, 766]]:
                 out.append({"id": "history/%s/%s" % (kind, ",".join(map(str, lens))), "k": "history", "kind": kind, "lens": lens,
